@@ -1275,6 +1275,36 @@ def oracle_C05(P):
                 raise PropertyViolation("C05: neighbors() with a short-lived filter function differs from the recomputed answer")
 
 
+def oracle_C12(P):
+    """a list handed out by neighbors() belongs to the caller: editing it (here: right after the call that produced it, which
+    with caching on may be the very call that filled the memo) must not show in the next answer"""
+    Vx = P.eg["Vertex"]
+    nb = P.mods["helpers"].neighbors
+    flag = Vx.NEIGHBOR_CACHING
+    for v in P.V + P.U:
+        for d in (0, 1, 2):
+            for f in P.filters2[:2]:
+                try:
+                    got = nb(v, d, 1, f)
+                    keep = list(got)
+                    got.append(v)
+                    if len(got) > 1:
+                        del got[0]
+                    again = nb(v, d, 1, f)
+                except (IndexError, AttributeError):
+                    continue
+                if not (len(again) == len(keep) and all(x is y for x, y in zip(again, keep))):
+                    raise PropertyViolation(f"C12: editing the list returned by neighbors(v, {d}) changed the next answer")
+                again.clear()
+        # invalidate what this oracle memoised so that later operations still meet cold caches now and then
+    if flag:
+        for v in P.V + P.U:
+            try:
+                v._qa_neighbors_invalidate()
+            except Exception:
+                pass
+
+
 def _temp_filter(flag, v0):
     return lambda e, w: flag or w is v0
 
@@ -1285,6 +1315,10 @@ ORACLES = {"C01": oracle_C01, "C02": oracle_C02, "C19": oracle_C19}
 def oracles_for(pid):
     if pid == "C05":
         return [oracle_C05]
+    if pid == "C12":
+        # a caller's edit of a container it was handed must not show in later answers: with caching on, later answers are the
+        # memoised ones, so they are compared with recomputed ones (oracle of C05) after every step
+        return [ORACLES[p] for p in ORACLES] + [oracle_C12, oracle_C05]
     if pid in ("C04", "C09"):
         # the decision table holds with caching on as well: cached answers equal recomputed ones
         return [ORACLES[p] for p in ("C01",)] + [oracle_C05]
